@@ -271,4 +271,56 @@ theorem sourceLine_insert_lines (s ins : Bytes) (p q : Nat) (hpq : p ≤ q) (hq 
     · simp
     · rw [hp0, ← List.append_assoc, lastLine_append_nl _ c hc]
 
+/-! ### several insertions given in original coordinates (`applyEdits`, `moveThrough`) -/
+
+theorem foldl_add_init (l : List (Nat × Bytes)) (a : Nat) :
+    l.foldl (fun a e => a + e.2.length) a = a + l.foldl (fun a e => a + e.2.length) 0 := by
+  induction l generalizing a with
+  | nil => simp
+  | cons e l ih => simp only [List.foldl_cons]; rw [ih, ih (0 + e.2.length)]; omega
+
+theorem moveThrough_cons (p : Nat) (ins : Bytes) (rest : List (Nat × Bytes)) (q : Nat) :
+    moveThrough ((p, ins) :: rest) q = moveThrough rest q + (if p ≤ q then ins.length else 0) := by
+  unfold moveThrough
+  simp only [List.filter_cons]
+  by_cases h : p ≤ q
+  · simp only [h, decide_true, if_true, List.foldl_cons]
+    rw [foldl_add_init]; omega
+  · simp [h]
+
+theorem moveThrough_ge (es : List (Nat × Bytes)) (q : Nat) : q ≤ moveThrough es q := by
+  unfold moveThrough; omega
+
+theorem moveThrough_all_after (es : List (Nat × Bytes)) (q : Nat) (h : ∀ e ∈ es, q < e.1) :
+    moveThrough es q = q := by
+  unfold moveThrough
+  have : es.filter (fun e => decide (e.1 ≤ q)) = [] := by
+    rw [List.filter_eq_nil_iff]; intro e he; have := h e he; simp; omega
+  rw [this]; rfl
+
+/-- insertion offsets in ascending order (the order the harness and `applyEdits` use) -/
+def Ascending : List (Nat × Bytes) → Prop
+  | [] => True
+  | (p, _) :: rest => (∀ e ∈ rest, p ≤ e.1) ∧ Ascending rest
+
+theorem getElem?_insertAt_after (t ins : Bytes) (p q : Nat) (hpq : p ≤ q) (hp : p ≤ t.length) :
+    (insertAt t p ins)[q + ins.length]? = t[q]? := by
+  unfold insertAt
+  have hl : (t.take p ++ ins).length = p + ins.length := by simp [List.length_take]; omega
+  rw [List.getElem?_append_right (by omega), hl, List.getElem?_drop]
+  congr 1; omega
+
+theorem getElem?_insertAt_before (t ins : Bytes) (p q : Nat) (hqp : q < p) (hq : q < t.length) :
+    (insertAt t p ins)[q]? = t[q]? := by
+  unfold insertAt
+  rw [List.append_assoc, List.getElem?_append_left (by simp [List.length_take]; omega)]
+  simp [hqp]
+
+theorem length_applyEdits_ge (s : Bytes) (es : List (Nat × Bytes)) : s.length ≤ (applyEdits s es).length := by
+  induction es with
+  | nil => simp [applyEdits]
+  | cons e es ih =>
+    obtain ⟨p, ins⟩ := e
+    simp only [applyEdits, length_insertAt]; omega
+
 end RsslVerif.Lemmas.SourceMap
